@@ -26,6 +26,7 @@ From stdpp Require Import gmap list.
 From Coq Require Import NArith Lia.
 From RopeVerif.Lib Require Import Text.
 From RopeVerif.C10 Require Import FsModel Change.
+From RopeVerif.C10 Require HistoryProofs Static.
 
 (* --------------------------------------------------------------------------------- resources *)
 (* (is an instance of Folder, path) *)
@@ -112,11 +113,36 @@ Inductive sres :=
 | SErr (s : hist) (k : sched) (x : err)
 | SNotListed (s : hist) (k : sched).
 
-(* History._is_change_interesting: some changed resource is not ignored *)
-Definition interesting_in (ign : list (list N)) (c : change) : bool :=
-  existsb (fun r : rsrc => negb (existsb (text_eqb (snd r)) ign)) (resources c).
+(* Project.is_ignored = _ResourceMatcher.does_match on the patterns of prefs["ignored_resources"]: each
+   pattern P becomes a regular expression "anything up to a slash, or nothing; P; a slash and anything, or
+   nothing", where a star in P stands for any run of non-slash characters and a question mark for one such
+   character: for patterns without a slash (all the default ones) a path is ignored iff SOME segment of it
+   matches the glob P.  Segments are interned; [spell_of] gives their code points.  (Symbolic links, also
+   ignored, are outside the model.) *)
+Fixpoint glob (pat s : list N) : bool :=
+  match pat with
+  | [] => match s with [] => true | _ => false end
+  | c :: pat' =>
+      if N.eqb c 42 then                                   (* a star *)
+        (fix star (s : list N) : bool :=
+           glob pat' s || match s with [] => false | _ :: s' => star s' end) s
+      else match s with
+           | [] => false
+           | d :: s' => (N.eqb c 63 || N.eqb c d) && glob pat' s'      (* a question mark, or the character *)
+           end
+  end.
 
-Definition hdo (v : variant) (fuel : nat) (ign : list (list N)) (c : change) (s : hist) (k : sched) : sres :=
+Definition spell_of (tbl : list (N * list N)) (seg : N) : list N :=
+  match find (fun kv => N.eqb (fst kv) seg) tbl with Some kv => snd kv | None => [] end.
+
+Definition ignored_by (tbl : list (N * list N)) (pats : list (list N)) (p : list N) : bool :=
+  existsb (fun seg => existsb (fun pat => glob pat (spell_of tbl seg)) pats) p.
+
+(* History._is_change_interesting: some changed resource is not ignored ([ign] = Project.is_ignored on paths) *)
+Definition interesting_in (ign : list N -> bool) (c : change) : bool :=
+  existsb (fun r : rsrc => negb (ign (snd r))) (resources c).
+
+Definition hdo (v : variant) (fuel : nat) (ign : list N -> bool) (c : change) (s : hist) (k : sched) : sres :=
   match run v fuel true (notify k) Do c (h_fs s) with
   | Ok m' k' c' =>
       SOk (Hist m' (if interesting_in ign c' then trim (h_limit s) (h_undo s ++ [c']) else h_undo s)
@@ -174,7 +200,7 @@ Definition hredo (bp : bool) (v : variant) (fuel : nat) (sel : option nat) (s : 
       else SNotListed s k
   end.
 
-Definition hstep (bp : bool) (v : variant) (fuel : nat) (ign : list (list N)) (o : op) (s : hist) (k : sched) : sres :=
+Definition hstep (bp : bool) (v : variant) (fuel : nat) (ign : list N -> bool) (o : op) (s : hist) (k : sched) : sres :=
   match o with
   | ODo c => hdo v fuel ign c s k
   | OUndo sel drp => hundo bp v fuel sel drp s k
@@ -185,7 +211,7 @@ Definition sres_state (r : sres) : hist :=
   match r with SOk s _ _ => s | SErr s _ _ => s | SNotListed s _ => s end.
 
 (* a whole session: every operation starts with a fresh task handle (no stop, no fault) *)
-Fixpoint hsteps (bp : bool) (v : variant) (fuel : nat) (ign : list (list N)) (os : list op) (s : hist) : hist :=
+Fixpoint hsteps (bp : bool) (v : variant) (fuel : nat) (ign : list N -> bool) (os : list op) (s : hist) : hist :=
   match os with
   | [] => s
   | o :: r => hsteps bp v fuel ign r (sres_state (hstep bp v fuel ign o s quiet))
@@ -285,3 +311,44 @@ Fixpoint undoable (c : change) : bool :=
   | CS _ cs => (fix go (l : list change) : bool := match l with [] => true | c :: r => undoable c && go r end) cs
   | _ => true
   end.
+
+(* ------------------------------------------------------------------ well-behaved sessions *)
+(* A condition on a session that can be evaluated without the ghost flag of the schedule: every do touches
+   a non-ignored resource and, from the tree at that moment, passes C10's static scan
+   (Static.reversible_cs: every leaf reached before a refusal is exactly reversible in the tree in which
+   it is executed - no removal, no move onto an occupied path, recorded old contents that are the
+   contents); or, equivalently decided here by [exec], it succeeds with every leaf exactly reversible, or is
+   refused and belongs to C10's syntactic class (fresh edits and creations); no undo drops. *)
+Definition step_wb (f : nat) (ign : list N -> bool) (o : op) (s : hist) : bool :=
+  match o with
+  | ODo c => interesting_in ign c
+             && (RopeVerif.C10.Static.reversible_cs f (h_fs s) c
+                 || match exec f Do c (h_fs s) with
+                    | Some (_, _, ir) => negb ir
+                    | None => RopeVerif.C10.HistoryProofs.static_ok c
+                    end)
+  | OUndo _ drp => negb drp
+  | ORedo _ => true
+  end.
+
+Fixpoint well_behaved_session (bp : bool) (f : nat) (ign : list N -> bool) (os : list op) (s : hist) : bool :=
+  match os with
+  | [] => true
+  | o :: r => step_wb f ign o s
+              && well_behaved_session bp f ign r (sres_state (hstep bp repaired f ign o s quiet))
+  end.
+
+(* the purely syntactic sub-class: every performed change is built from edits (old contents not yet
+   recorded) and creations *)
+Definition static_op (ign : list N -> bool) (o : op) : bool :=
+  match o with
+  | ODo c => interesting_in ign c && RopeVerif.C10.HistoryProofs.static_ok c
+  | OUndo _ drp => negb drp
+  | ORedo _ => true
+  end.
+
+Definition static_session (ign : list N -> bool) (os : list op) : bool := forallb (static_op ign) os.
+
+(* project.prefs["max_history_items"] changed between two operations (History.max_undos reads it on every
+   use; nothing is trimmed until the next do or save) *)
+Definition set_limit (n : nat) (s : hist) : hist := Hist (h_fs s) (h_undo s) (h_redo s) n.
